@@ -214,6 +214,17 @@ func c07Feed(c *ev.Collector, k c07Kind, state []byte) (c07Verdict, string) {
 	if err != nil {
 		return c07Rejected, ""
 	}
+	if k.mlen != 0 && len(state) != k.mlen {
+		// the packages reject every input whose length is not the marshaled length
+		// ("invalid hash state size" / "invalid hash state"); an accepted over-long input
+		// also means the validated bytes need not be the parsed ones.  Exercise it anyway
+		// so that a resulting panic is part of the report.
+		f := c07Exercise(k, h, false)
+		if f != "" {
+			f = " and then " + f
+		}
+		return c07AcceptedOK, fmt.Sprintf("%s UnmarshalBinary accepted a %d-byte input (marshaled length is %d)%s: %x", k.name, len(state), k.mlen, f, state)
+	}
 	squeezing := k.family == "keccak" && len(state) == k.mlen && state[k.dirAt] == 1
 	if f := c07Exercise(k, h, squeezing); f != "" {
 		if what, in := c07F1Class(k, state); in {
@@ -226,6 +237,34 @@ func c07Feed(c *ev.Collector, k c07Kind, state []byte) (c07Verdict, string) {
 		return c07AcceptedOK, fmt.Sprintf("%s UnmarshalBinary accepted %x but then %s", k.name, state, f)
 	}
 	return c07AcceptedOK, ""
+}
+
+// c07FieldBounds lists the offsets at which a field of the marshaled form starts or ends.
+func c07FieldBounds(k c07Kind) []int {
+	if k.family == "keccak" {
+		return []int{0, 1, 3, 4, 5, 6, 5 + 199, 205, 206, 207}
+	}
+	// magic | h | c | size | block | offset
+	word := k.ctrLen / 2
+	out := []int{0, 1, 2, 3, 3 + word, k.ctrAt - word, k.ctrAt, k.ctrAt + word, k.sizeAt, k.sizeAt + 1, k.sizeAt + 2, k.offAt - 1, k.offAt, k.mlen}
+	return out
+}
+
+// c07Corrupted returns a valid state of kind k with one range-checked field
+// set out of range (which: 0 none, 1 size/n, 2 offset/direction).
+func c07Corrupted(k c07Kind, fill, which int) []byte {
+	s := c07Base(k, fill)
+	switch {
+	case which == 1 && k.family == "keccak":
+		s[k.nAt] = byte(k.bs + 9)
+	case which == 2 && k.family == "keccak":
+		s[k.dirAt] = 2
+	case which == 1:
+		s[k.sizeAt] = 200
+	case which == 2:
+		s[k.offAt] = 200
+	}
+	return s
 }
 
 // c07Base produces a valid marshaled state after writing n patterned bytes.
@@ -394,6 +433,40 @@ func TestC07(t *testing.T) {
 			}
 		}
 	}
+	// structured wrong-length inputs: every truncation length, and for every tail length 1..marshaledSize of a
+	// second valid state: state || tail, tail || state, state || zeros; state = valid / out-of-range field
+	nL := 0
+	for _, k := range []c07Kind{c07B2b(64), c07B2b(17), c07B2s(), c07Keccak(256), c07Keccak(512)} {
+		other := c07Base(k, k.bs+3)
+		for which := 0; which <= 2; which++ {
+			base := c07Corrupted(k, 5, which)
+			for L := 0; L < k.mlen; L++ {
+				item++
+				if !ev.Mine(item) {
+					continue
+				}
+				run(k, fmt.Sprintf("length:truncated/base%d", which), L, which, base[:L], &nL)
+			}
+			for _, b := range c07FieldBounds(k) {
+				item++
+				if b < k.mlen && ev.Mine(item) {
+					run(k, fmt.Sprintf("length:cut-at-field/base%d", which), b, which, base[:b], &nL)
+				}
+			}
+			for L := 1; L <= k.mlen; L++ {
+				item++
+				if !ev.Mine(item) {
+					continue
+				}
+				tail := other[k.mlen-L:]
+				run(k, fmt.Sprintf("length:state+tail/base%d", which), L, which, append(append([]byte{}, base...), tail...), &nL)
+				run(k, fmt.Sprintf("length:tail+state/base%d", which), L, which, append(append([]byte{}, tail...), base...), &nL)
+				run(k, fmt.Sprintf("length:state+zeros/base%d", which), L, which, append(append([]byte{}, base...), make([]byte, L)...), &nL)
+				run(k, fmt.Sprintf("length:state+head/base%d", which), L, which, append(append([]byte{}, base...), other[:L]...), &nL)
+			}
+		}
+	}
+	c.Exhaustive("wrong-length inputs: every truncation 0..len-1 and, for every L in 1..len, state||tail_L, tail_L||state, state||zeros_L, state||head_L of a second valid state; state in {valid, size/n out of range, offset/direction out of range}; 5 kinds", nL)
 	c.Exhaustive("legacy Keccak marshaled state: n byte 0..255 x direction byte (all 256 at the boundaries and in thorough), rate byte 0..255", nK)
 }
 
@@ -510,7 +583,7 @@ func c07Corruption(c *ev.Collector, rt *rapid.T, k c07Kind) {
 	blake := k.family != "keccak"
 	var field string
 	var val int
-	mode := rapid.IntRange(0, 13).Draw(rt, "corruption")
+	mode := rapid.IntRange(0, 16).Draw(rt, "corruption")
 	setCtr := func() {
 		switch rapid.IntRange(0, 3).Draw(rt, "ctrMode") {
 		case 0:
@@ -590,6 +663,38 @@ func c07Corruption(c *ev.Collector, rt *rapid.T, k c07Kind) {
 			state = append(state, gen.RandBytes(rt, "ext", rapid.IntRange(1, 300).Draw(rt, "extLen"))...)
 		}
 		val = len(state)
+	case mode >= 14:
+		// structured wrong length: (valid or field-corrupted state) || suffix, or prefix || state
+		which := rapid.IntRange(0, 2).Draw(rt, "structBase")
+		state = c07Corrupted(k, fill, which)
+		if rapid.IntRange(0, 3).Draw(rt, "structRandomField") == 0 {
+			if blake {
+				state[k.sizeAt], state[k.offAt] = byte(rapid.IntRange(0, 255).Draw(rt, "sizeByte")), byte(rapid.IntRange(0, 255).Draw(rt, "offsetByte"))
+			} else {
+				state[k.nAt], state[k.dirAt] = byte(rapid.IntRange(0, 255).Draw(rt, "nByte")), byte(rapid.IntRange(0, 3).Draw(rt, "dirByte"))
+			}
+		}
+		other := c07Base(k, rapid.SampledFrom([]int{0, 3, k.bs, 2*k.bs + 5}).Draw(rt, "otherFill"))
+		var extra []byte
+		kind := rapid.IntRange(0, 4).Draw(rt, "extraKind")
+		switch kind {
+		case 0:
+			extra = gen.RandBytes(rt, "extraRnd", rapid.IntRange(1, 2*k.mlen).Draw(rt, "extraLen"))
+		case 1:
+			extra = make([]byte, rapid.IntRange(1, 2*k.mlen).Draw(rt, "extraLen"))
+		case 2, 3:
+			extra = other[len(other)-rapid.IntRange(1, len(other)).Draw(rt, "tailLen"):]
+		default:
+			extra = other
+		}
+		if rapid.IntRange(0, 2).Draw(rt, "asPrefix") == 0 {
+			state = append(append([]byte{}, extra...), state...)
+			field = fmt.Sprintf("struct-length:prefix%d+state%d", kind, which)
+		} else {
+			state = append(state, extra...)
+			field = fmt.Sprintf("struct-length:state%d+suffix%d", which, kind)
+		}
+		val = len(state)
 	case mode == 9:
 		field = "random-with-magic"
 		magicLen := 3
@@ -626,7 +731,11 @@ func c07Corruption(c *ev.Collector, rt *rapid.T, k c07Kind) {
 	}
 	cls := map[c07Verdict]string{c07Rejected: "rejected", c07AcceptedOK: "accepted", c07ExcludedKnown: "excluded-known"}[verdict]
 	key := fmt.Sprintf("%s|%s|%d|fill%d", k.name, field, val, fill)
-	c.Case(verdict == c07AcceptedOK, key, "corrupt:"+k.family+":"+field, "corrupt:"+cls)
+	fieldClass := field
+	if i := strings.Index(field, ":"); i > 0 {
+		fieldClass = field[:i] + map[bool]string{true: ":prefix+state", false: ":state+suffix"}[strings.Contains(field, "prefix")]
+	}
+	c.Case(verdict == c07AcceptedOK, key, "corrupt:"+k.family+":"+fieldClass, "corrupt:"+cls)
 	if c.WantSample() {
 		c.Sample(map[string]any{"part": "corruption", "kind": k.name, "field": field, "value": val, "verdict": cls, "state": ev.Hex(state)})
 	}
